@@ -27,9 +27,13 @@
                PUB/DPUB/MPUB left nothing, an MPUB is all-or-nothing); and the consumed
                channel's /stats afterwards show exactly the effect of the accepted
                FIN/REQ commands (messages left, deferred, requeue_count, in flight).
+   A second kind of case (Accept) is one run of the accept loop, protocol.TCPServer, on a
+   listener whose Accept results are scripted (see accept_monitor below): agree compares the
+   run with model/AcceptLoop.v run_accept on the same script, the monitor says that
+   connections and temporary errors never end the loop and cost nobody his service.
    No proofs here. *)
 From Coq Require Import List NArith ZArith Bool.
-From NSQV Require Import gen.Consts model.Judge model.Names model.Num model.Proto model.ProtoSpec.
+From NSQV Require Import gen.Consts model.Judge model.Names model.Num model.Proto model.ProtoSpec model.AcceptLoop.
 Import ListNotations.
 Open Scope Z_scope.
 
@@ -55,8 +59,25 @@ Inductive case :=
        (intent : option (list (N * Z * bool * Z)))  (* generator's commands: (index in all_cmds, n, within limits, slot), see [icmd] *)
        (chan : option (Z * Z * Z * Z))        (* the consumed channel in /stats after the case: messages left (topic +
                                                  channel depth + in flight + deferred), in flight, deferred, requeue_count *)
-       (eof : bool).                          (* the client half-closed after its last byte (false: it kept the connection
+       (eof : bool)                           (* the client half-closed after its last byte (false: it kept the connection
                                                  open and watched whether the daemon closes it) *)
+(* One run of the accept loop (protocol.TCPServer: alone, or inside an nsqd / nsqlookupd whose
+   TCP listener was wrapped, or inside a subprocess nsqd that really runs out of descriptors)
+   on a listener that returns the scripted results: *)
+| Accept (script : list ares)                 (* the results of the successive Accept calls; of an error: what its
+                                                 Temporary() / Timeout() methods answer and errors.Is(err, net.ErrClosed),
+                                                 asked of the very error value by the driver *)
+         (consumed : option N)                (* Accept calls that returned (None: not observable from outside the process) *)
+         (served : list N)                    (* connections that were handed to the handler / answered by the daemon, ascending *)
+         (again : option (list N))            (* daemons: the connections that were answered once more, after all the rest
+                                                 and before the result that ends the script was let out *)
+         (ret : N)                            (* 0 the loop (Main) has not returned, 1 it returned nil, 2 it returned an
+                                                 error that names the last result consumed, 3 another error *)
+         (waited : option bool)               (* TCPServer alone: every handler had returned when the loop returned; a daemon
+                                                 stopped by a scripted "listener closed": Main had not returned while the
+                                                 clients it was serving were still connected *)
+         (alive : bool).                      (* the loop (Main, the process) had not returned when everything before the
+                                                 first permanent result had been played *)
 
 Definition mk_cfg (max_msg max_body max_rdy : Z) (deflate_on snappy_on tls_on tls_required : bool) : cfg :=
   let d := default_cfg max_msg max_body max_rdy in
@@ -395,8 +416,60 @@ Definition monitor (cf : cfg) (stream : bytes) (eof : bool) (ndeliv : Z) (frames
        end
      end.
 
+(* ------------------------------------------------------------------ the accept loop *)
+(* The property on the recording alone.  A result is harmless when it is a connection or an
+   error whose own Temporary() method answers true (the condition "the process is out of
+   descriptors right now" and its kin).  While only harmless results have come out of
+   Accept, every connection offered must have been served (and the ones served must still be
+   served afterwards), every result consumed, and the loop must not have returned; the first
+   other result ends the loop and nothing after it is consumed: net.ErrClosed makes it return
+   nil, after the handlers; any other error is returned. *)
+Definition harmless (r : ares) : bool :=
+  match r with
+  | AConn _ => true
+  | AErr e => match e_temporary e with Some true => true | _ => false end
+  end.
+Fixpoint harmless_prefix (script : list ares) : list ares * list ares :=
+  match script with
+  | [] => ([], [])
+  | r :: tl => if harmless r then (let (a, b) := harmless_prefix tl in (r :: a, b)) else ([], script)
+  end.
+Definition offered (script : list ares) : list N :=
+  flat_map (fun r => match r with AConn id => [id] | AErr _ => [] end) script.
+Definition opt_n_ok (o : option N) (v : N) : bool := match o with Some x => (x =? v)%N | None => true end.
+
+Definition accept_monitor (script : list ares) (consumed : option N) (served : list N) (again : option (list N))
+           (ret : N) (waited : option bool) (alive : bool) : bool :=
+  let (pre, rest) := harmless_prefix script in
+  alive
+  && list_eqb N.eqb served (offered pre)
+  && match again with Some l => list_eqb N.eqb l served | None => true end
+  && match rest with
+     | [] => (ret =? 0)%N && opt_n_ok consumed (N.of_nat (length script))
+     | AErr e :: _ =>
+         opt_n_ok consumed (N.of_nat (S (length pre)))
+         && (if e_closed e then (ret =? 1)%N && match waited with Some false => false | _ => true end
+             else (ret =? 2)%N)
+     | AConn _ :: _ => false
+     end.
+
+Definition ret_code (r : aret) : N := match r with RRunning => 0%N | RNil => 1%N | RErr _ => 2%N end.
+
+Definition accept_agree (script : list ares) (consumed : option N) (served : list N) (ret : N) (waited : option bool) : bool :=
+  let o := run_accept script in
+  opt_n_ok consumed (o_consumed o)
+  && list_eqb N.eqb served (o_served o)
+  && (ret =? ret_code (o_ret o))%N
+  && match waited, o_ret o with
+     | Some w, RNil => Bool.eqb w (o_waits o)
+     | _, _ => true
+     end.
+
 Definition judge (c : case) : N :=
   match c with
+  | Accept script consumed served again ret waited alive =>
+    verdict (accept_agree script consumed served ret waited)
+            (accept_monitor script consumed served again ret waited alive)
   | Conn cf stream jsons delivered full frames enq alive bystander intent chan eof =>
     let orc := ledger delivered full in
     let os := handle_conn cf orc (json_of jsons) stream in
@@ -414,6 +487,8 @@ Definition judge (c : case) : N :=
 
 (* short names for the driver's terms *)
 Definition bad_json : jres := BadJSON.
+Definition aconn (id : N) : ares := AConn id.
+Definition aerr_ (temporary timeout : option bool) (closed : bool) : ares := AErr (mkAErr temporary timeout closed).
 
 (* long streams: a run of one repeated byte, and the concatenation of pieces *)
 Definition fill (n c : N) : bytes := repeat c (N.to_nat n).
